@@ -4,7 +4,7 @@
    constants of the current source in Gen/InstJournalOk.v: jp_ok) and for EVERY checksum
    function crc : bytes -> N. *)
 From GL Require Import Base.Bytes Codec.Crc Codec.Journal Codec.JournalSpec Codec.JournalReaderProofs
-  Codec.JournalWriterProofs Codec.JournalProofs Codec.JournalDamageProofs Gen.InstJournalOk.
+  Codec.JournalWriterProofs Codec.JournalProofs Codec.JournalDamageProofs Codec.JournalCutProofs Codec.JournalZeroTailProofs Gen.InstJournalOk.
 
 (* 0. The writer model never panics / runs out of fuel: jwrite is the output of a completed run. *)
 Theorem C12_writer_total : forall crc p, jparams_ok p -> forall fl rs,
@@ -81,6 +81,31 @@ Theorem C12_truncation_complete : forall crc p, jparams_ok p -> forall strict ck
 Proof. exact truncation_complete. Qed.
 Print Assumptions C12_truncation_complete.
 
+(*    ... and no other: the number m of records yielded is EXACTLY the number of records whose
+      bytes lie wholly inside the first n bytes (the stream written for the first m records is at
+      most n bytes long, and m is the largest such number). *)
+Theorem C12_truncation_exact : forall crc p, jparams_ok p -> forall strict ck fl rs n,
+  exists m t,
+    jread crc p strict ck (firstn n (jwrite crc p fl rs)) = map Rec (firstn m rs) ++ t /\
+    (t = [] \/ t = [if strict then Err else Skipped]) /\
+    (m <= length rs)%nat /\
+    (length (jwrite crc p fl (firstn m rs)) <= n)%nat /\
+    (forall j, (j <= length rs)%nat ->
+               (length (jwrite crc p fl (firstn j rs)) <= n)%nat -> (j <= m)%nat).
+Proof. exact truncation_exact. Qed.
+Print Assumptions C12_truncation_exact.
+
+(* 4b. The block parser is sequential: ANY byte string d that agrees with the written stream on
+      its first n bytes (a cut, a cut followed by zeros or garbage, damage after offset n, ...) is
+      read, in either mode, with or without checksums, and with no hypothesis on the rest of d,
+      as the records written wholly inside those n bytes followed by something. *)
+Theorem C12_prefix_complete : forall crc p, jparams_ok p -> forall strict ck fl rs d n j,
+  firstn n d = firstn n (jwrite crc p fl rs) ->
+  (length (jwrite crc p fl (firstn j rs)) <= n)%nat ->
+  exists t, jread crc p strict ck d = map Rec (firstn j rs) ++ t.
+Proof. exact prefix_complete. Qed.
+Print Assumptions C12_prefix_complete.
+
 (* 5. Damage.  no_forgery ck rs d is a COMPUTABLE boolean on the concrete damaged stream d:
       d has as many blocks as the stream written for rs and, in every block, what the block
       parser accepts is a run of that block's original chunks from the block start, the rest of
@@ -103,14 +128,79 @@ Theorem C12_damage_contained : forall crc p, jparams_ok p -> forall ck fl rs d,
 Proof. exact damage_contained. Qed.
 Print Assumptions C12_damage_contained.
 
-(*    Strict mode: a prefix of the records, then nothing (no parsed chunk was affected) or Err.
-      Not proved (only exercised by the harness oracle): that the prefix contains every record
-      lying entirely before the first damaged block. *)
+(*    Strict mode: a prefix of the records, then nothing (no parsed chunk was affected) or Err. *)
 Theorem C12_damage_strict : forall crc p, jparams_ok p -> forall ck rs d,
   no_forgery crc p ck rs d = true ->
   exists m t, jread crc p true ck d = map Rec (firstn m rs) ++ t /\ (t = [] \/ t = [Err]).
 Proof. exact damage_strict. Qed.
 Print Assumptions C12_damage_strict.
+
+(*    ... and the prefix contains every record lying entirely before the damage: if d agrees
+      with the written stream on its first n bytes (n = offset of the first altered byte; for
+      damage confined to blocks b, b+1, ... take n = b * blockSize) then every one of the first j
+      records, the stream written for which is at most n bytes long, is yielded. *)
+Theorem C12_damage_strict_complete : forall crc p, jparams_ok p -> forall ck fl rs d n j,
+  no_forgery crc p ck rs d = true ->
+  firstn n d = firstn n (jwrite crc p fl rs) ->
+  (j <= length rs)%nat ->
+  (length (jwrite crc p fl (firstn j rs)) <= n)%nat ->
+  exists m t, jread crc p true ck d = map Rec (firstn m rs) ++ t /\ (t = [] \/ t = [Err]) /\
+              (j <= m)%nat /\ (m <= length rs)%nat.
+Proof. exact damage_strict_complete. Qed.
+Print Assumptions C12_damage_strict_complete.
+
+(*    Tolerant mode, same situation: the records yielded are the records written wholly inside
+      the intact first n bytes, all of them, followed by a sub-sequence of the others. *)
+Theorem C12_damage_contained_prefix : forall crc p, jparams_ok p -> forall ck fl rs d n j,
+  no_forgery crc p ck rs d = true ->
+  firstn n d = firstn n (jwrite crc p fl rs) ->
+  (length (jwrite crc p fl (firstn j rs)) <= n)%nat ->
+  exists keep, recs_of (jread crc p false ck d) = firstn j rs ++ select keep (skipn j rs).
+Proof. exact damage_contained_prefix. Qed.
+Print Assumptions C12_damage_contained_prefix.
+
+(* 6. Tails: what a crash leaves of an unsynced journal on some file systems (the images C04
+      builds: vstor TailCut / TailCutZero / TailCutJunk) is the stream cut at a byte offset n
+      followed by other bytes - zeros or garbage - up to the written length.
+      For ANY tail (any bytes, any length), either mode, no hypothesis: the records wholly inside
+      the cut are yielded first. *)
+Theorem C12_tail_complete : forall crc p, jparams_ok p -> forall strict ck fl rs n tail j,
+  (n <= length (jwrite crc p fl rs))%nat ->
+  (length (jwrite crc p fl (firstn j rs)) <= n)%nat ->
+  exists t, jread crc p strict ck (firstn n (jwrite crc p fl rs) ++ tail) = map Rec (firstn j rs) ++ t.
+Proof. exact tail_complete. Qed.
+Print Assumptions C12_tail_complete.
+
+(*    ZERO tail (any number of zero bytes after the cut), EVERY checksum function, checksums
+      verified or not, both modes, no hypothesis: the reader yields exactly the m records wholly
+      inside the cut (m as in C12_truncation_exact), then at most ONE further record.  No chunk is
+      ever parsed out of the zeros; the one further record can only stem from the chunk the cut
+      falls in, when its header survived (its payload is then zero-filled: accepted if the
+      checksum is not verified, collides, or the lost bytes were zeros anyway - the two witnesses
+      of C12_zero_tail_witnesses show that "at most one" cannot be improved to "none"). *)
+Theorem C12_zero_tail : forall crc p, jparams_ok p -> forall strict ck fl rs n z,
+  exists m t,
+    jread crc p strict ck (firstn n (jwrite crc p fl rs) ++ repeat 0 z) = map Rec (firstn m rs) ++ t /\
+    (m <= length rs)%nat /\
+    (length (jwrite crc p fl (firstn m rs)) <= n)%nat /\
+    (forall j, (j <= length rs)%nat ->
+               (length (jwrite crc p fl (firstn j rs)) <= n)%nat -> (j <= m)%nat) /\
+    (length (recs_of t) <= 1)%nat.
+Proof. exact zero_tail. Qed.
+Print Assumptions C12_zero_tail.
+
+(*    ... and, tolerant mode, when the checksum detects the tail (no_forgery evaluated on the
+      image: zeros or garbage of the same length), nothing is invented after them: what follows
+      is a sub-sequence of the remaining records (for a zero tail: at most one of them). *)
+Theorem C12_tail_contained : forall crc p, jparams_ok p -> forall ck fl rs n tail j,
+  (n <= length (jwrite crc p fl rs))%nat ->
+  no_forgery crc p ck rs (firstn n (jwrite crc p fl rs) ++ tail) = true ->
+  (length (jwrite crc p fl (firstn j rs)) <= n)%nat ->
+  exists keep,
+    recs_of (jread crc p false ck (firstn n (jwrite crc p fl rs) ++ tail))
+    = firstn j rs ++ select keep (skipn j rs).
+Proof. exact tail_contained. Qed.
+Print Assumptions C12_tail_contained.
 
 Theorem C12_no_forgery_intact : forall crc p, jparams_ok p -> forall ck fl rs,
   no_forgery crc p ck rs (jwrite crc p fl rs) = true.
@@ -139,3 +229,40 @@ Example C12_nonvacuous :
   jread jcrc jp_small true true d = [Rec []; Rec [1;2;3;4;5;6;7;8;9;10;11]; Rec [5]; Err] /\
   map (rec_blocks jp_small rs) [0; 1; 2; 3]%nat = [[0]; [0]; [0; 1]; [1; 2; 3]]%nat.
 Proof. split; [exact jp_small_ok|]. vm_compute. repeat split; reflexivity. Qed.
+
+(* Non-vacuity of the cut / damage-prefix / tail theorems on the same 32-byte-block instance
+   (record k ends at stream offset 7, 25, 40, 121): a cut at 39 yields exactly 2 records; the
+   flipped byte at offset 70 leaves the 3 records wholly before it; a cut at 50 followed by zeros
+   or by 255s up to the written length satisfies no_forgery with the real CRC-32C and yields the 3
+   records inside the cut. *)
+Example C12_nonvacuous_cut :
+  let rs := [[]; [1;2;3;4;5;6;7;8;9;10;11]; [5]; repeat 9 60] in
+  let s := jwrite jcrc jp_small [] rs in
+  map (fun j => length (jwrite jcrc jp_small [] (firstn j rs))) [0;1;2;3;4]%nat = [0;7;25;40;121]%nat /\
+  jread jcrc jp_small true true (firstn 39 s) = map Rec (firstn 2 rs) ++ [Err] /\
+  (let d := firstn 70 s ++ [77] ++ skipn 71 s in
+   no_forgery jcrc jp_small true rs d = true /\ firstn 70 d = firstn 70 s /\
+   jread jcrc jp_small true true d = map Rec (firstn 3 rs) ++ [Err]) /\
+  (let d := firstn 50 s ++ repeat 0 71 in
+   no_forgery jcrc jp_small true rs d = true /\
+   recs_of (jread jcrc jp_small false true d) = firstn 3 rs ++ select [] (skipn 3 rs)) /\
+  (let d := firstn 50 s ++ repeat 255 71 in
+   no_forgery jcrc jp_small true rs d = true /\
+   recs_of (jread jcrc jp_small false true d) = firstn 3 rs ++ select [] (skipn 3 rs)).
+Proof. vm_compute. repeat split; reflexivity. Qed.
+
+(* Why "a zero tail yields exactly the records inside the cut" is NOT a theorem: (1) a record
+   whose bytes beyond the cut are zeros anyway is intact in the image and is yielded (records end
+   at 8, 21, 29; cut at 18 = inside the payload of the second one); (2) with checksum
+   verification off (opt.StrictJournalChecksum cleared) a chunk whose header survived the cut is
+   accepted with a zero-filled payload: a record that was never written (no_forgery is false). *)
+Example C12_zero_tail_witnesses :
+  (let rz := [[1]; [0;0;0;0;0;0]; [2]] in
+   let s := jwrite jcrc jp_small [] rz in
+   map (fun j => length (jwrite jcrc jp_small [] (firstn j rz))) [1;2;3]%nat = [8;21;29]%nat /\
+   jread jcrc jp_small false true (firstn 18 s ++ repeat 0 11) = [Rec [1]; Rec [0;0;0;0;0;0]]) /\
+  (let rs := [[]; [1;2;3;4;5;6;7;8;9;10;11]; [5]; repeat 9 60] in
+   let d := firstn 14 (jwrite jcrc jp_small [] rs) ++ repeat 0 107 in
+   jread jcrc jp_small false false d = [Rec []; Rec [0;0;0;0;0;0;0;0;0;0;0]] /\
+   no_forgery jcrc jp_small false rs d = false).
+Proof. vm_compute. repeat split; reflexivity. Qed.
